@@ -59,6 +59,7 @@ func cmdRun(args []string) {
 	timeout := fs.Int("timeout", 60000, "per-query timeout ms")
 	jsonOut := fs.String("json", "", "write result JSON")
 	intArith := fs.Bool("int-arith", false, "encode 64-bit unsigned mul/div in integer arithmetic")
+	rangeFacts := fs.Bool("range-facts", false, "keep words converted from range-checked integers in the integer theory")
 	fs.Parse(args)
 	p := *pkg
 	if !strings.HasPrefix(p, repoMod) {
@@ -77,6 +78,7 @@ func cmdRun(args []string) {
 	cfg.Thorough = *thorough
 	cfg.Workers = *workers
 	cfg.PermuteMaps = *permute
+	cfg.RangeFacts = *rangeFacts
 	cfg.LogDir = *logDir
 	cfg.SolverKind = *solver
 	cfg.TimeoutMs = *timeout
